@@ -345,13 +345,19 @@ func ValuesFor(labels []Label) []argmapper.Value {
 }
 
 func (w *World) realizeBuilt(fs *FuncSpec, opts []argmapper.Arg) (*argmapper.Func, error) {
-	inSet, err := argmapper.NewValueSet(ValuesFor(fs.In))
-	if err != nil {
-		return nil, err
+	// BuildFunc documents nil as "no values": use it for empty sides of
+	// functions with an even id, an explicit empty set otherwise
+	var inSet, outSet *argmapper.ValueSet
+	var err error
+	if len(fs.In) > 0 || fs.ID%2 == 1 {
+		if inSet, err = argmapper.NewValueSet(ValuesFor(fs.In)); err != nil {
+			return nil, err
+		}
 	}
-	outSet, err := argmapper.NewValueSet(ValuesFor(fs.Out))
-	if err != nil {
-		return nil, err
+	if len(fs.Out) > 0 || fs.ID%2 == 1 {
+		if outSet, err = argmapper.NewValueSet(ValuesFor(fs.Out)); err != nil {
+			return nil, err
+		}
 	}
 	return argmapper.BuildFunc(inSet, outSet, func(in, out *argmapper.ValueSet) error {
 		got := make([]reflect.Value, len(fs.In))
@@ -780,4 +786,20 @@ func (w *World) Prime(mode string) {
 			}
 		})
 	}
+}
+
+// RealizeViaList is Realize through NewFuncList (which documents itself as
+// "the same as calling NewFunc for each f").
+func (w *World) RealizeViaList(fs *FuncSpec, defaults ...argmapper.Arg) (*argmapper.Func, error) {
+	opts := make([]argmapper.Arg, 0, len(defaults)+8)
+	opts = append(opts, defaults...)
+	fl, err := argmapper.NewFuncList([]interface{}{w.MakeGoFunc(fs)}, opts...)
+	if err != nil {
+		return nil, err
+	}
+	w.mu.Lock()
+	w.Funcs[fs.ID] = fl[0]
+	w.Specs[fs.ID] = fs
+	w.mu.Unlock()
+	return fl[0], nil
 }
